@@ -329,6 +329,33 @@ def VV():
     return None
 
 
+def WW():
+    """remove_bases refused because a descendant loses its C3 order (detected while deriving) changes nothing"""
+    m = _reset()
+    n0, n1 = m.new_space("n0"), m.new_space("n1")
+    n0.new_cells("p", formula="lambda x: k * x")
+    n0.k = 10
+    n1.new_cells("q", formula="lambda x: x + 1")
+    n2 = m.new_space("n2", bases=[n0, n1])
+    n2.new_cells("r", formula="lambda x: p(x) + q(x)")
+    n3 = m.new_space("n3", bases=[n2, n0])
+    m.new_space("n4", bases=[n3, n0, n1])
+    before = _snap(m)
+    try:
+        n2.remove_bases(n0)
+    except Exception:     # noqa
+        after = _snap(m)
+        if after != before:
+            return "refused n2.remove_bases(n0) left n2 with bases %s and cells %s" % (
+                [b.name for b in n2.bases], list(n2.cells))
+        try:
+            if n2.r(2) != 23:
+                return "n2.r(2) == %r after the refused remove_bases" % (n2.r(2),)
+        except Exception as e:     # noqa
+            return "n2.r(2) raises %s after the refused remove_bases" % type(e).__name__
+    return None
+
+
 # ------------------------------------------------------------------ C03
 def B():
     """redefining a base cells overwrites copies deriving from an override in between"""
